@@ -16,7 +16,7 @@ func init() {
 		ID: "C15",
 		Explanation: "Decides structural necessary conditions of C15: (R-C15-1) level trigger: every watcher is created with a ready channel of constant capacity >= 1 and notify sends on it only inside a select with a default (never blocks the poller; a pending notification is never lost, further ones coalesce); " +
 			"(R-C15-2) in the apply phase every notify for a name is dominated by the install for that same name within the same critical section, and every installing iteration reaches the notification loop over that name's watchers; (R-C15-3) registration: the watcher is appended to the watcher list of the looked-up name under the lock and wraps the handle of that same name; NewUpdater builds its initial value from the watcher it registered (so an install between registration and first read is either seen or signalled); " +
-			"(R-C15-4) Updater.value and Updater.err are accessed only with Updater.mu held; (R-C15-5) rebuild discipline in Updater.Get: the builder runs only on the ready edge of a non-blocking receive from the watcher, with the watcher's current bytes; the store to value and the Close of the previous value are edge-dominated by the builder's nil error; what is closed is the value loaded before the store, never the new one, at most once; err is stored on both edges; the result is the field's value after the update. (R-C15-6) inside the client library every receive from a watcher's ready channel lies in Updater.Get or a helper of it (a notification is consumed only where it triggers the rebuild).",
+			"(R-C15-4) Updater.value and Updater.err are accessed only with Updater.mu held; (R-C15-5) rebuild discipline in Updater.Get: the builder runs only on the ready edge of a non-blocking receive from the watcher, with the watcher's current bytes; the store to value and the Close of the previous value are edge-dominated by the builder's nil error; what is closed is the value loaded before the store, never the new one, at most once; err is stored on both edges; the result is the field's value after the update. (R-C15-6) inside the client library every receive from a watcher's ready channel lies in Updater.Get or a helper of it (a notification is consumed only where it triggers the rebuild). (R-C15-5, extended) once the notification has been consumed every path rebuilds before returning; (R-C15-7) watcher.notify is called only where a poll result has just been installed.",
 		NotDecided:  "Sequences of values observed over histories; that a user-supplied builder is deterministic.",
 		Trusted:     commonTrusted,
 		Assumptions: []string{"a buffered channel of capacity >= 1 with non-blocking sends keeps at least one pending notification"},
@@ -115,9 +115,19 @@ func runC15(c *eng.Ctx, tier string) {
 			}
 		}
 		var notifies []*ssa.Call
-		eng.Instrs(apply, func(in ssa.Instruction) {
-			if call, ok := in.(*ssa.Call); ok && eng.Callee(&call.Call) == notify && notify != nil {
+		// (the loop over the name's watchers may live in a helper applyUpdates calls from one place)
+		notifySite := map[*ssa.Call]ssa.Instruction{} // where it happens in apply itself
+		eng.InstrsDeep(apply, func(g *ssa.Function, in ssa.Instruction) {
+			call, ok := in.(*ssa.Call)
+			if !ok || notify == nil || eng.Callee(&call.Call) != notify {
+				return
+			}
+			if g == apply {
 				notifies = append(notifies, call)
+				notifySite[call] = call
+			} else if site := eng.UniqueCallSite(g); site != nil && site.Parent() == apply && g.Parent() == nil {
+				notifies = append(notifies, call)
+				notifySite[call] = site
 			}
 		})
 		if outer == nil || len(installs) == 0 {
@@ -129,7 +139,7 @@ func runC15(c *eng.Ctx, tier string) {
 			for _, nc := range notifies {
 				// the watcher notified belongs to the list of the same name
 				okName := false
-				for _, rl := range eng.RangeLoops(apply) {
+				for _, rl := range eng.RangeLoops(nc.Parent()) {
 					if rl.ElemOf(nc.Call.Args[0]) {
 						if lk, isLk := eng.Origin(rl.Slice).(*ssa.Lookup); isLk {
 							if nm, isAct := activeMapOf(lk.X); isAct && nm == "w" && eng.OriginX(lk.Index) == outer.Key {
@@ -140,7 +150,7 @@ func runC15(c *eng.Ctx, tier string) {
 				}
 				dom := false
 				for _, st := range installs {
-					if eng.InstrDominates(st, nc) {
+					if eng.InstrDominates(st, notifySite[nc]) {
 						dom = true
 					}
 				}
@@ -150,11 +160,17 @@ func runC15(c *eng.Ctx, tier string) {
 			// every installing iteration reaches the notification loop
 			for _, st := range installs {
 				var wl *eng.RangeLoop
-				for _, rl := range eng.RangeLoops(apply) {
-					if lk, isLk := eng.Origin(rl.Slice).(*ssa.Lookup); isLk {
-						if nm, isAct := activeMapOf(lk.X); isAct && nm == "w" {
-							r2 := rl
-							wl = &r2
+				fns := map[*ssa.Function]bool{apply: true}
+				for _, nc := range notifies {
+					fns[nc.Parent()] = true
+				}
+				for g := range fns {
+					for _, rl := range eng.RangeLoops(g) {
+						if lk, isLk := eng.Origin(rl.Slice).(*ssa.Lookup); isLk {
+							if nm, isAct := activeMapOf(lk.X); isAct && nm == "w" {
+								r2 := rl
+								wl = &r2
+							}
 						}
 					}
 				}
@@ -342,6 +358,7 @@ func runC15(c *eng.Ctx, tier string) {
 	}
 	c15Get(c)
 	c15Receives(c)
+	c15WhoNotifies(c)
 }
 
 func c15Get(c *eng.Ctx) {
@@ -371,6 +388,7 @@ func c15Get(c *eng.Ctx) {
 	defer func() { get = top }()
 	// on the ready edge of a non-blocking receive from the watcher
 	ready := false
+	var readyEdge *ssa.BasicBlock
 	for _, cond := range eng.FactsX(build) {
 		op, x, y, isCmp := cond.Cmp()
 		if !isCmp || op != token.EQL {
@@ -394,6 +412,29 @@ func c15Get(c *eng.Ctx) {
 		} else if fr, _, isF := eng.LoadedField(st.Chan); isF && fr.Is(setecPkg, "watcher", watcherChanField(p)) {
 			ready = true
 		}
+		if ready && cond.If != nil && readyEdge == nil {
+			for i, succ := range cond.If.Block().Succs {
+				if cd := eng.CondOf(cond.If.Cond, i == 0); cd.Op == token.EQL {
+					readyEdge = succ
+				}
+			}
+		}
+	}
+	// a consumed notification always leads to a rebuild: from the ready edge
+	// no return is reached without the builder having been called (whatever
+	// the new bytes are: an empty value is a value)
+	if readyEdge != nil && readyEdge.Parent() == build.Parent() {
+		isBuild := func(x ssa.Instruction) bool { return x == ssa.Instruction(build) }
+		hit, path := eng.SearchBlock(get, readyEdge, nil, isBuild, eng.IsReturn)
+		if len(readyEdge.Instrs) > 0 && isBuild(readyEdge.Instrs[0]) {
+			hit = nil
+		}
+		c.Check(hit == nil, "R-C15-5", get, build.Pos(), eng.CallStr(&build.Call)+" [always]", "once the notification has been consumed the value is rebuilt from the current bytes on every path (no early return that leaves the old value in place with nothing pending)", func() string {
+			if hit == nil {
+				return ""
+			}
+			return "return reached without rebuilding: " + p.PathStr(path)
+		}())
 	}
 	c.Check(ready, "R-C15-5", get, build.Pos(), eng.CallStr(&build.Call)+" [when]", "the value is rebuilt only on the ready edge of a non-blocking receive from the watcher (only if an install happened since the previous Get)", "holding: "+factsStr(eng.FactsX(build)))
 	// with the watcher's current bytes
@@ -576,5 +617,37 @@ func c15Receives(c *eng.Ctx) {
 	}
 	if n == 0 {
 		c.Undecided("R-C15-6", get, get.Pos(), "receives from the ready channel", "none found")
+	}
+}
+
+// c15WhoNotifies: R-C15-7.  A notification is raised only by an install: the
+// only callers of watcher.notify are the function applying poll results and
+// its helpers ("rebuilt only if an install happened since the previous Get":
+// re-arming the channel from anywhere else makes the next Get rebuild with no
+// install in between).
+func c15WhoNotifies(c *eng.Ctx) {
+	p := c.P
+	notify := anchor(p, setecPkg, "watcher.notify")
+	if notify == nil {
+		return
+	}
+	region := map[*ssa.Function]bool{}
+	for _, af := range applyFuncs(c) {
+		eng.InstrsDeep(af, func(g *ssa.Function, _ ssa.Instruction) { region[eng.Outer(g)] = true })
+	}
+	n := 0
+	for _, f := range p.PkgFuncs(setecPkg) {
+		eng.Instrs(f, func(in ssa.Instruction) {
+			ci, ok := in.(ssa.CallInstruction)
+			if !ok || eng.Callee(ci.Common()) != notify {
+				return
+			}
+			n++
+			okk := region[eng.Outer(f)]
+			c.Check(okk, "R-C15-7", f, in.Pos(), eng.CallStr(ci.Common())+" in "+eng.FName(f), "watchers are notified only where a poll result has just been installed", "notified from "+eng.FName(f))
+		})
+	}
+	if n == 0 {
+		c.Undecided("R-C15-7", notify, notify.Pos(), "callers of watcher.notify", "none found")
 	}
 }
